@@ -472,9 +472,33 @@ func (vc *FnVC) cellKey(elem types.Type) *KeyInfo {
 
 func (vc *FnVC) allocKey() *KeyInfo { return vc.key("$alloc", "Int", "alloc") }
 
+// structKeySort: the SMT datatype used for a struct type as a map key (fields must be scalar).
+func structKeySort(t types.Type) (name string, decl string, ok bool) {
+	u, isS := t.Underlying().(*types.Struct)
+	if !isS {
+		return "", "", false
+	}
+	name = "K!" + sanitize(typeName(t))
+	var fs []string
+	for i := 0; i < u.NumFields(); i++ {
+		fsort := sortOf(u.Field(i).Type())
+		if fsort == "" {
+			return "", "", false
+		}
+		fs = append(fs, fmt.Sprintf("(%s.%s %s)", name, u.Field(i).Name(), fsort))
+	}
+	decl = fmt.Sprintf("(declare-datatypes ((%s 0)) (((mk%s %s))))", name, name, strings.Join(fs, " "))
+	return name, decl, true
+}
+
 func mapKeyNames(m *types.Map) (dom, val, ln string, ks, vs string) {
 	ks = sortOf(m.Key())
 	vs = sortOf(m.Elem())
+	if ks == "" {
+		if n, _, ok := structKeySort(m.Key()); ok {
+			ks = n
+		}
+	}
 	if ks == "" {
 		ks = "Int"
 	}
@@ -487,6 +511,10 @@ func mapKeyNames(m *types.Map) (dom, val, ln string, ks, vs string) {
 
 func (vc *FnVC) mapKeys(m *types.Map) (dom, val, ln *KeyInfo) {
 	d, v, l, ks, vs := mapKeyNames(m)
+	if n, decl, ok := structKeySort(m.Key()); ok && !vc.declSet[n] {
+		vc.declSet[n] = true
+		vc.decls = append([]string{decl}, vc.decls...) // the datatype must precede its uses
+	}
 	dom = vc.key(d, "(Array Int (Array "+ks+" Bool))", "mapdom")
 	val = vc.key(v, "(Array Int (Array "+ks+" "+vs+"))", "mapval")
 	ln = vc.key(l, "(Array Int Int)", "maplen")
